@@ -276,6 +276,18 @@ func Classify(err error) string {
 	return "other"
 }
 
+// ClassMatters says whether the properties name the error a rejected call has to fail with: a duplicate unique value (C03), a reference
+// that still exists (C04: "refused with a reference-exists error") and a veto ("a veto ... is always returned to the caller", C07).
+// Every other rejection only has to reach the caller as a non-nil error.
+func ClassMatters(app []string) bool {
+	for _, a := range app {
+		if a != "dup" && a != "refExists" && a != "veto" {
+			return false
+		}
+	}
+	return len(app) > 0
+}
+
 // Coarsen maps the model's error classes to what Classify can tell apart.
 func Coarsen(op string, app []string) map[string]bool {
 	out := map[string]bool{}
